@@ -5,6 +5,14 @@
 
 int verif_exc;
 
+/* Lemma harnesses allocate their buffers themselves.  An object of the cbmc memory model is smaller than
+ * __CPROVER_max_malloc_size (2^(64 - object_bits) - 1) and cbmc 6 lets malloc fail by default: both facts are the
+ * domain "the caller passes a buffer that exists"; the enforced contracts get the same domain from is_fresh. */
+#define C10_BUFFER(p, n)                               \
+  __CPROVER_assume((n) < __CPROVER_max_malloc_size);   \
+  void* p = malloc(n);                                 \
+  __CPROVER_assume(p != 0)
+
 /* Table lemma (RFC 1952 make_crc_table): every entry of the real table is the 8-step bit-serial division of its index
  * by the reflected polynomial 0xedb88320 -- symbolic index, so all 256 entries. */
 void l_crc32_table(void) {
@@ -30,10 +38,9 @@ void h_crc32(void) {
 /* one-argument form: the default seed is the RFC's start value 0, so the result is crc(buf, len) */
 void l_crc32_default(void) {
   size_t in_size;
-  void* data = malloc(in_size);
-  __CPROVER_assume(data != 0);
+  C10_BUFFER(data, in_size);
   __CPROVER_assert(X_CRC32_DEFAULT_SEED == C10_CRC32_START, "default seed of crc32 is the RFC 1952 start value 0");
-  g_crc = 0xffffffffu;          /* register of a fresh RFC 1952 run */
+  g_crc = 0xffffffffu; /* register of a fresh RFC 1952 run */
   g_n = 0;
   uint32_t r = crc32(data, in_size, X_CRC32_DEFAULT_SEED);
   __CPROVER_assert(r == (g_crc ^ 0xffffffffu) && g_n == in_size, "crc32(buf, len) == update_crc(0, buf, len)");
@@ -46,10 +53,8 @@ void l_crc32_default(void) {
 void l_crc32_chain(void) {
   size_t in_na, in_nb;
   uint32_t in_seed;
-  __CPROVER_assume(in_na <= (SIZE_MAX >> 2) && in_nb <= (SIZE_MAX >> 2));
-  void* a = malloc(in_na);
-  void* b = malloc(in_nb);
-  __CPROVER_assume(a != 0 && b != 0);
+  C10_BUFFER(a, in_na);
+  C10_BUFFER(b, in_nb);
   g_crc = C10_CRC32_INIT(in_seed);
   g_n = 0;
   uint32_t r1 = crc32(a, in_na, in_seed);
@@ -60,42 +65,39 @@ void l_crc32_chain(void) {
   VERIF_REACH();
 }
 
-#define FNV(W, T, GH)                                                                                                   \
-  void h_fnv1a##W(void) {                                                                                               \
-    size_t in_size;                                                                                                     \
-    T in_hash;                                                                                                          \
-    const void* data;                                                                                                   \
-    GH = in_hash;                                                                                                       \
-    g_n = 0;                                                                                                            \
-    fnv1a##W(data, in_size, in_hash);                                                                                   \
-    VERIF_REACH();                                                                                                      \
-  }                                                                                                                     \
-  void l_fnv1a##W##_default(void) {                                                                                     \
-    size_t in_size;                                                                                                     \
-    void* data = malloc(in_size);                                                                                       \
-    __CPROVER_assume(data != 0);                                                                                        \
-    __CPROVER_assert(X_FNV1A##W##_START == C10_FNV##W##_OFFSET_BASIS, "default seed is the FNV offset basis");          \
-    GH = C10_FNV##W##_OFFSET_BASIS;                                                                                     \
-    g_n = 0;                                                                                                            \
-    T r = fnv1a##W(data, in_size, X_FNV1A##W##_START);                                                                  \
-    __CPROVER_assert(r == GH && g_n == in_size, "fnv1a(buf) == FNV-1a recurrence from the offset basis");               \
-    VERIF_REACH();                                                                                                      \
-  }                                                                                                                     \
-  void l_fnv1a##W##_chain(void) {                                                                                       \
-    size_t in_na, in_nb;                                                                                                \
-    T in_seed;                                                                                                          \
-    __CPROVER_assume(in_na <= (SIZE_MAX >> 2) && in_nb <= (SIZE_MAX >> 2));                                             \
-    void* a = malloc(in_na);                                                                                            \
-    void* b = malloc(in_nb);                                                                                            \
-    __CPROVER_assume(a != 0 && b != 0);                                                                                 \
-    GH = in_seed;                                                                                                       \
-    g_n = 0;                                                                                                            \
-    T r1 = fnv1a##W(a, in_na, in_seed);                                                                                 \
-    __CPROVER_assert(r1 == GH, "seeding with fnv1a(a) resumes the recurrence where a ended");                           \
-    T r2 = fnv1a##W(b, in_nb, r1);                                                                                      \
-    __CPROVER_assert(r2 == GH, "fnv1a(b, seed = fnv1a(a, s)) is the value of the recurrence over a||b from s");         \
-    __CPROVER_assert(g_n == in_na + in_nb, "the recurrence consumed |a| + |b| octets");                                 \
-    VERIF_REACH();                                                                                                      \
+#define FNV(W, T, GH)                                                                                          \
+  void h_fnv1a##W(void) {                                                                                      \
+    size_t in_size;                                                                                            \
+    T in_hash;                                                                                                 \
+    const void* data;                                                                                          \
+    GH = in_hash;                                                                                              \
+    g_n = 0;                                                                                                   \
+    fnv1a##W(data, in_size, in_hash);                                                                          \
+    VERIF_REACH();                                                                                             \
+  }                                                                                                            \
+  void l_fnv1a##W##_default(void) {                                                                            \
+    size_t in_size;                                                                                            \
+    C10_BUFFER(data, in_size);                                                                                 \
+    __CPROVER_assert(X_FNV1A##W##_START == C10_FNV##W##_OFFSET_BASIS, "default seed is the FNV offset basis"); \
+    GH = C10_FNV##W##_OFFSET_BASIS;                                                                            \
+    g_n = 0;                                                                                                   \
+    T r = fnv1a##W(data, in_size, X_FNV1A##W##_START);                                                         \
+    __CPROVER_assert(r == GH && g_n == in_size, "fnv1a(buf) == FNV-1a recurrence from the offset basis");      \
+    VERIF_REACH();                                                                                             \
+  }                                                                                                            \
+  void l_fnv1a##W##_chain(void) {                                                                              \
+    size_t in_na, in_nb;                                                                                       \
+    T in_seed;                                                                                                 \
+    C10_BUFFER(a, in_na);                                                                                      \
+    C10_BUFFER(b, in_nb);                                                                                      \
+    GH = in_seed;                                                                                              \
+    g_n = 0;                                                                                                   \
+    T r1 = fnv1a##W(a, in_na, in_seed);                                                                        \
+    __CPROVER_assert(r1 == GH, "seeding with fnv1a(a) resumes the recurrence where a ended");                  \
+    T r2 = fnv1a##W(b, in_nb, r1);                                                                             \
+    __CPROVER_assert(r2 == GH, "fnv1a(b, seed = fnv1a(a, s)) is the value of the recurrence over a||b from s"); \
+    __CPROVER_assert(g_n == in_na + in_nb, "the recurrence consumed |a| + |b| octets");                        \
+    VERIF_REACH();                                                                                             \
   }
 FNV(32, uint32_t, g_h32)
 FNV(64, uint64_t, g_h64)
